@@ -40,6 +40,7 @@ def showCaller (s : Sys) (c : Nat) : String :=
   match s.callers c with
   | .got t .ok => s!"v{t}"
   | .got t .boom => s!"x{t}"
+  | .got _ .cancel => "c"          -- the shared invocation ended cancelled on its own: so does everyone awaiting it
   | .cancelled => "c"
   | _ => "."
 
@@ -70,6 +71,7 @@ def applyOp (d : D) (tok : String) : Option D :=
     match t.toNat?, o with
     | some t, "o" => some (fire d t .ok)
     | some t, "x" => some (fire d t .boom)
+    | some t, "c" => some (fire d t .cancel)
     | _, _ => none
   | ["adv", n] => n.toNat?.map (fun n => { d with s := stepOr d.s (.advance n) })
   | _ => none
